@@ -3,7 +3,7 @@
 spec:     specs/c19_interceptor
             FailSafeRel (the property as a successor relation on P-states) / FailSafeP (behaviour spec) /
             FailSafeI (implementation-shaped) / MC_C19 (I => P by subset construction) / FailSafeTrace (tree validation) / GenC19
-            FilterP (property of one decision) / FilterI (transcription) / MC_C19Filter (input space, I => P, case generation) / FilterTrace
+            TrafficFilterP (property of one decision) / TrafficFilterI (transcription) / MC_C19Filter (input space, I => P, case generation) / TrafficFilterTrace
 binding:  py/c19_exec.py (python3, stdlib) loads fail_safe.py / traffic_filter.py / configuration.py of the repository by path and
           builds FailSafe / TrafficFilter with the constructor calls found in lunar_interceptor/__init__.py, from the environment variables
 """
@@ -140,7 +140,7 @@ def witness_failsafe(path):
     w = {"class": "failsafe-observation-not-permitted", "N": path[0]["N"], "C": path[0]["C"], "at": len(path) - 1, "now": now,
          "gateway_failures_before": fails - (bad["ev"] == "call" and bad["out"] == "gwerr"),
          "event": {k: bad[k] for k in ("ev", "d", "read", "out", "kind", "ans", "raised") if k in bad}}
-    if bad["ev"] == "call" and bad["out"] == "appexc" and bad["raised"] != "same":
+    if bad["ev"] == "call" and bad["out"] == "appexc" and bad["raised"] != "same" and (bad["ans"] or not bad["read"]):
         w["class"] = "application-exception-not-propagated"
     return w
 
@@ -224,8 +224,10 @@ def part_trees(ctx):
     else:
         for c in CONFIGS:
             jobs.append(("core8-n%dc%d" % (c["N"], c["C"]), {"configs": [c], "depth": 8, "alphabet": CORE}))
-        for i in range(0, 9, 3):
-            jobs.append(("ext5-%d" % i, {"configs": CONFIGS[i:i + 3], "depth": 5, "alphabet": EXT}))
+        small = [c for c in CONFIGS if c["N"] <= 2 and c["C"] <= 2]
+        jobs.append(("ext5-a", {"configs": small[:2], "depth": 5, "alphabet": EXT}))
+        jobs.append(("ext5-b", {"configs": small[2:], "depth": 5, "alphabet": EXT}))
+        jobs.append(("ext4", {"configs": [c for c in CONFIGS if c not in small], "depth": 4, "alphabet": EXT}))
 
     def one(job):
         tag, spec = job
@@ -235,7 +237,7 @@ def part_trees(ctx):
         s = run_exec(ctx, ["tree", sp, tp])
         if s.get("nondeterministic"):
             raise Broken("re-execution of a prefix gave a different observation (%s): %s" % (tag, s))
-        rej, visited, lines = judge_tree(ctx, tp, tag, workers=4, heap="6g" if T else None)
+        rej, visited, lines = judge_tree(ctx, tp, tag, workers=4 if not T else 3, heap="6g" if T else None)
         nodes = read_ndjson(tp)
         leaves, nontriv = leaf_stats(nodes)
         sample = None
@@ -244,7 +246,7 @@ def part_trees(ctx):
             sample = [{k: v for k, v in n.items() if k in ("ev", "N", "C", "d", "out", "ans", "raised") and v not in ("", 0)} for n in nodes[1:8]]
         os.remove(tp)
         return tag, s, rej, leaves, nontriv, lines, sample
-    for tag, s, rej, leaves, nontriv, lines, sample in parallel(one, jobs, n=2 if not T else 3):
+    for tag, s, rej, leaves, nontriv, lines, sample in parallel(one, jobs, n=2 if not T else 5):
         ctx.log("tree %s: %d nodes, %d histories (%d open+recover), %d executions, %d rejected nodes" % (
             tag, lines, leaves, nontriv, s["executions"], len(rej)))
         ctx.cov["evaluations"] += s["executions"]
@@ -294,7 +296,7 @@ def part_walks(ctx):
     """(a) TLC -simulate walks of FailSafeI replayed (spec -> code);  (b) seeded random long histories (code -> spec)."""
     T = ctx.thorough
     sd = workdir(ctx, "gen")
-    n = 25 if not T else 400        # every walk is printed once per successor of its last state (~13x)
+    n = 25 if not T else 200        # every walk is printed once per successor of its last state (~13x)
     g = ctx.tlc(sd, "GenC19", "GenC19.cfg", workers=1, simulate="num=%d" % n, depth=45, extra=["-seed", str(ctx.seed)], timeout=900,
                 label="behaviour generation (simulation of FailSafeI)")
     walks = tlc_vh_lines(g.out)
@@ -351,10 +353,61 @@ def part_walks(ctx):
     return os.path.join(d, "rand.ndjson")
 
 
+def decode_path(codes):
+    cfg = {"N": codes[0] // 100, "C": codes[0] % 100}
+    evs = []
+    outs = {1: "ok", 2: "gwerr", 3: "appexc", 4: "skip"}
+    for c in codes[1:]:
+        if c == 1:
+            evs.append({"ev": "ask"})
+        elif c >= 100:
+            evs.append({"ev": "adv", "d": c - 100})
+        else:
+            read = c < 15
+            out = outs[c - (10 if read else 15)]
+            evs.append({"ev": "call", "read": read, "out": out, "kind": {"gwerr": "proxy", "appexc": "value"}.get(out, "")})
+    return {"config": cfg, "events": evs}
+
+
+def part_coverage(ctx):
+    """coverage-directed generation: one history per transition of the state graph of FailSafeI (TLC, GenC19Cov), executed on the
+    real class and judged by FailSafeTrace - covers model states far beyond the depth of the exhaustive trees."""
+    T = ctx.thorough
+    import re
+    wd = workdir(ctx, "cov")
+    cfgp = os.path.join(wd, "GenC19Cov.cfg")
+    c = open(cfgp).read()
+    if not T:
+        c = c.replace("Ns = {4}", "Ns = {1, 2, 3, 4}").replace("Cs = {3}", "Cs = {1, 2, 3}")
+    else:
+        c = c.replace("Ns = {4}", "Ns = {1, 2, 3, 4, 5}").replace("Cs = {3}", "Cs = {1, 2, 3, 5}").replace("MaxNow = 8", "MaxNow = 12").replace(
+            "Steps = {1, 2}", "Steps = {1, 2, 3}")
+    open(cfgp, "w").write(c)
+    g = ctx.tlc(wd, "GenC19Cov", "GenC19Cov.cfg", workers=1, timeout=900, label="coverage-directed generation: one history per edge of I's state graph")
+    if not g.ok:
+        raise Broken("coverage generation failed: %r\n%s" % (g, g.out[-2000:]))
+    paths = [[int(x) for x in m.split(",")] for m in re.findall(r'^<<"VP", <<([0-9, ]+)>>>>$', g.out, re.M)]
+    if len(paths) < 1000 or len(paths) < g.generated * 0.9:
+        raise Broken("coverage generation printed %d paths for %d transitions" % (len(paths), g.generated))
+    scripts = [decode_path(p) for p in paths]
+    d = ctx.sub("cov")
+    json.dump(scripts, open(os.path.join(d, "cov.json"), "w"))
+    s = run_exec(ctx, ["trie", os.path.join(d, "cov.json"), os.path.join(d, "cov.ndjson")])
+    if s.get("nondeterministic"):
+        raise Broken("re-execution of a prefix gave a different observation (coverage): %s" % s)
+    rej, visited, lines = judge_tree(ctx, os.path.join(d, "cov.ndjson"), "cov", workers=4)
+    ctx.log("model-graph coverage: %d model states, %d transitions -> %d histories (longest %d events), %d recorded nodes, %d rejected" % (
+        g.distinct, g.generated, len(scripts), max(len(p) for p in paths) - 1, lines, len(rej)))
+    ctx.cov["evaluations"] += s["executions"]
+    ctx.cov["model_transitions_covered"] = len(scripts)
+    if not rej:
+        ctx.cov["traces_validated_against_impl"] += len(scripts)
+
+
 def judge_filter(ctx, trace_path, tag):
     wd = workdir(ctx, "filter-" + tag)
     shutil.copy(trace_path, os.path.join(wd, "trace.ndjson"))
-    r = ctx.tlc(wd, "FilterTrace", "FilterTrace.cfg", workers=1, timeout=900, count=False, heap="6g")
+    r = ctx.tlc(wd, "TrafficFilterTrace", "TrafficFilterTrace.cfg", workers=1, timeout=900, count=False, heap="6g")
     import re
     m = re.search(r'<<"FILTER-JUDGED", (\d+), (\d+), (\d+)>>', r.out)
     if not r.ok or not m:
@@ -408,7 +461,7 @@ def part_filter(ctx, space):
         hosts.append({"h": "h%d.rand.test" % i, "kind": "name", "ip": ip, "v6": "", "rsv": "ok"})
     spec = {"hosts": hosts, "headers": space["headers"], "configs": cfgs, "rounds": 2}
     s, total, constrained, bad, tp = run_filter(ctx, spec, "main")
-    ctx.log("filter: %d decisions of the real TrafficFilter judged by FilterP (%d with a routing prohibition), %d not permitted" % (
+    ctx.log("filter: %d decisions of the real TrafficFilter judged by TrafficFilterP (%d with a routing prohibition), %d not permitted" % (
         total, constrained, len(bad)))
     ctx.cov["evaluations"] += total
     ctx.cov["filter_cases"] = total
@@ -481,10 +534,10 @@ def run(ctx):
                        "legs already in flight]) up to the stated depth for N, C in 1..3, as one recorded tree per run, + TLC walks + seeded random "
                        "long histories incl. the default configuration; a history is non-trivial when the breaker opened (a read answered FALSE) "
                        "and a later read answered TRUE again. filter: decisions over the TLC-enumerated space (lists of <=2 entries x 26 "
-                       "destinations x 5 header values x 2 rounds through the result cache) + seeded random addresses; non-trivial = FilterP "
+                       "destinations x 5 header values x 2 rounds through the result cache) + seeded random addresses; non-trivial = TrafficFilterP "
                        "forbids routing for the case (counted by TLC)")
     ctx.cov["checker_cmd"] = ("tlc -config MC_small.cfg MC_C19.tla ; tlc -config FailSafeTrace.cfg FailSafeTrace.tla ; "
-                              "tlc -config MC_filter.cfg MC_C19Filter.tla ; tlc -config FilterTrace.cfg FilterTrace.tla")
+                              "tlc -config MC_filter.cfg MC_C19Filter.tla ; tlc -config TrafficFilterTrace.cfg TrafficFilterTrace.tla")
     ctx.cov["trusted_base"] = ["TLC 1.8", "CommunityModules Json", "CPython 3.11", "py/c19_exec.py (module loading by path with stub packages; "
                                "patched fail_safe.time and traffic_filter.gethostbyname; stub exception classes standing in for requests/aiohttp "
                                "connection errors registered through FailSafe.handle_on as the hooks do)"]
@@ -493,6 +546,7 @@ def run(ctx):
                         "the repository's own Python tests cannot run in this sandbox (requests/aiohttp/freezegun/pytest-asyncio not installed)"]
     space = part_model(ctx)
     part_trees(ctx)
+    part_coverage(ctx)
     rand_trace = part_walks(ctx)
     filter_trace = part_filter(ctx, space)
     if T:
@@ -519,7 +573,7 @@ def replay(ctx, path):
             print(json.dumps(n))
         if bad:
             print("VIOLATION property=C19 replay=%s" % path)
-            print("   decision %d is not permitted by FilterP" % (bad[0] - 1))
+            print("   decision %d is not permitted by TrafficFilterP" % (bad[0] - 1))
             return 1
     print("replay accepted by the specification")
     return 0
